@@ -31,6 +31,7 @@ def h_factory(ctx, kind, cfg, twin=False):
     earlier_result_survives(ctx, lambda: sym_and(b.check(u), u == b.pdu, u.pack() == raw),
                             [(lambda o=o: PduFactory.from_raw(o)) for o in other_packets(kind, cfg, VAR[kind]) +
                              other_packets("prompt" if kind != "prompt" else "eof", cfg, {})])
+    decoded_object_owns_its_data(ctx, PduFactory.from_raw, b.ref, lambda x: sym_and(b.check(x), x == b.pdu, x.pack() == raw))
     hl = hdr_len(b.v)
     ctx.holds("pdu_type inspector", PduFactory.pdu_type(raw) == (1 if kind == "filedata" else 0))
     ctx.holds("is_file_directive inspector", PduFactory.is_file_directive(raw) == (kind != "filedata"))
